@@ -175,15 +175,16 @@ def check_offsets(run, db):
     site = {'function': 'detail::memory_block_stack', 'role': 'header offset agreement'}
     probs = []
     # push: new node gets block.size - offset
-    news = [t for e in bs['push'].events() for t in [top_term(e)] if t is not None and t.get('k') == 'new']
     pushed = None
-    for t in news:
-        init = t.get('init') or {}
-        args = init.get('args', [])
-        if len(args) == 2:
-            pushed = sym.canon(args[1], {0: 'block'})
-    if pushed not in ('($block.size - %s)' % OFF, '($block.size - this.implementation_offset())'):
-        probs.append('push stores %s as usable size' % pushed)
+    for sm in fwd.summarize(bs['push'], db=db, roles={0: 'block'}, no_forward=True):
+        for c in sm.calls:
+            t = getattr(c, 'sub', None) or c[1]
+            if t.get('k') == 'new':
+                args = (t.get('init') or {}).get('args', [])
+                if len(args) == 2:
+                    pushed = linear.lin(args[1], {0: 'block'})
+    if pushed not in ({'$block.size': 1, OFF: -1}, {'$block.size': 1, 'this.implementation_offset()': -1}):
+        probs.append('push stores [%s] as usable size' % (linear.fmt(pushed) if pushed is not None else None))
     rp, _ = ret_canon(db, bs['pop'])
     if not rp or not any(('usable_size + ' in (r or '') or ' + ' in (r or '')) and 'implementation_offset()' in (r or '') for r in rp):
         probs.append('pop returns %s: not the pushed block (usable_size + offset)' % rp)
@@ -301,9 +302,15 @@ def check_maxima(run, db):
         if inner != 'memory_pool' or not f.short.startswith('try_allocate'):
             continue
         n += 1
-        conds = ' '.join(sym.canon(b['term']['cond']) for b in f.blocks.values() if b.get('term') and isinstance(b['term'].get('cond'), dict))
+        # every path that reaches the pool has compared the request with each advertised maximum (conditions by value: a hoisted
+        # `const bool size_ok = size <= max` is the comparison it names)
         need = ['max_node_size', 'max_alignment'] + (['max_array_size'] if 'array' in f.short else [])
-        missing = [g for g in need if g not in conds]
+        missing = []
+        for sm in fwd.summarize(f, db=db, no_forward=True):
+            if sm.end != 'return' or sm.ret in ('null', 'false'):
+                continue
+            txt = ' '.join(c for c, tk in sm.conds)
+            missing += [g for g in need if g not in txt and g not in missing]
         inst = '%s [%s]' % (f.display, db.config)
         if missing:
             run.violation('R-MAXIMA', inst, f.loc, 'the composable version does not test %s: a request above the advertised maximum could succeed' % missing,
@@ -331,7 +338,8 @@ COUNTERS = {
     ('memory_pool', 'capacity_left'): r'^\(this\.free_list_\.capacity\(\) \* this\.node_size\(\)\)$|^\(this\.node_size\(\) \* this\.free_list_\.capacity\(\)\)$',
     ('memory_pool', 'next_capacity'): r'^this\.free_list_\.usable_size\(this\.arena_\.next_block_size\(\)\)$',
     ('memory_pool_collection', 'capacity_left'): r'^\(this\.block_end\(\) - this\.stack_\.top\(\)\)$',
-    ('iteration_allocator', 'capacity_left'): r'^\(this\.block_end\(\$i\) - this\.stacks_\[\$i\]\.top\(\)\)$|^this\.capacity_left\(this\.cur_iteration\(\)\)$',
+    # the class's own accessors (capacity_left(i), cur_iteration()) are inlined: both overloads bottom out in the same difference
+    ('iteration_allocator', 'capacity_left'): r'^\(this\.block_end\((\$i|this\.cur_)\) - this\.stacks_\[\1\]\.top\(\)\)$',
     ('detail::joint_stack', 'capacity_left'): r'^\(this\.end_ - this\.top\(\)\)$',
 }
 
@@ -341,7 +349,9 @@ def check_counters(run, db):
     for (ct, short), pat in COUNTERS.items():
         for f in db.find(cls_t=ct, short=short):
             n += 1
-            rets, _ = ret_canon(db, f, {0: 'i'} if f.params else {})
+            own = (lambda a, c, t: c.cls == a.cls and c.key != a.key and c.rec.get('constm') and len(c.blocks) <= 4
+                   and c.short in ('capacity_left', 'cur_iteration')) if ct == 'iteration_allocator' else None
+            rets, _ = ret_canon(db, f, {0: 'i'} if f.params else {}, inline=own)
             r = rets[0] if rets else ''
             inst = '%s [%s]' % (f.display, db.config)
             if re.match(pat, r or ''):
